@@ -92,6 +92,34 @@ def check_history(rng, graphs, fails):
             return
 
 
+def check_history_systematic(rng, G, fails):
+    """the same two graph objects queried by engines with different attribute selections, in every order: a pair that is isomorphic
+    without labels but not with them makes any sharing of per-graph data between the engines visible"""
+    import itertools
+    if G.number_of_nodes() == 0:
+        return
+    sel = [["element", "charge"], ["element"], []]
+    for variant in ("element", "charge"):
+        a = copy.deepcopy(G)
+        b = copy.deepcopy(G)
+        n0 = sorted(b.nodes)[0]
+        if variant == "element":
+            b.nodes[n0]["element"] = "O" if b.nodes[n0].get("element") != "O" else "C"
+        else:
+            b.nodes[n0]["charge"] = 1 if b.nodes[n0].get("charge", 0) != 1 else 0
+        for order in itertools.permutations(range(len(sel))):
+            ga, gb = copy.deepcopy(a), copy.deepcopy(b)
+            engines = [GraphMatcherEngine(node_attrs=list(x), edge_attrs=list(EA), wl1_filter=True) for x in sel]
+            for i in order:
+                got = engines[i].isomorphic(ga, gb)
+                truth = iso_spec(ga, gb, node_attrs=sel[i])
+                if got != truth:
+                    fails.append({"function": "GraphMatcherEngine._wl_hash_cached", "violations": [
+                        "history: after queries in order %s, engine%s answered %s, definition %s" % ([sel[j] for j in order], sel[i], got, truth)],
+                        "pickle": enc((ga, gb)), "tags": {"kind": "history"}})
+                    return
+
+
 def relabel(rng, G, offset=10):
     nodes = list(G.nodes)
     perm = nodes[:]
@@ -124,6 +152,9 @@ def run(tw, tier, seed, only=None):
     for _ in range(20 if tier == "quick" else 200):
         cases += 1
         check_history(rng, [relabel(rng, rng.choice(pool), 0) for _ in range(4)], fails)
+    for G in pool[:: max(1, len(pool) // (25 if tier == "quick" else 200))]:
+        cases += 1
+        check_history_systematic(rng, G, fails)
     return {"cases": cases, "nontrivial": nontriv, "failures": fails, "samples": samples, "exhaustive": False, "evaluations": cases,
             "bound": "%d ordered pairs of labelled graphs <= 3 atoms (2 elements, 2 orders, hcount 0/1) incl. relabelled copies; wl filter on/off, "
                      "use_filter on/off, induced/monomorphism, query histories with 3 attribute selections" % cases,
